@@ -191,6 +191,13 @@ func (p c12) Gen(t *rapid.T, env *Env) (*Case, []*Out) {
 		meta.Kinds = append(meta.Kinds, label)
 		outs = append(outs, env.Exec(&c.Runs[len(c.Runs)-1].Spec))
 	}
+	// identical spec again, in processes that really run in parallel (GOMAXPROCS 4 and 16)
+	for _, procs := range []string{"4", "16"} {
+		c.Runs = append(c.Runs, Run{Label: "repeat:procs", Spec: mkSpec("", nil, args), Procs: procs})
+		meta.Prefixes = append(meta.Prefixes, "")
+		meta.Kinds = append(meta.Kinds, "identical-spec:unmodelled-source")
+		outs = append(outs, env.ExecProcs(&c.Runs[len(c.Runs)-1].Spec, procs))
+	}
 	c.Meta, _ = json.Marshal(meta)
 	env.sampleChecks(w, args, c)
 	return c, outs
